@@ -82,6 +82,14 @@ CLAIMS = {
         "the grid-pole flag and the coverage test. NOT decided: coverage of every consumer for a given layout, single electric network, behaviour unchanged by poles.",
    technique="constant tables vs draftsman prototype data + CFG dominance + guard-chain analysis + value-flow through the pipelines",
    ref="DESIGN.md §2 C18"),
+ "C19": dict(
+   text="Static analysis: syntactic set-type inference over all logical modules; every iteration/ordering conversion over a set must be sorted, have an order-insensitive body (recognised "
+        "statement forms) or be one of three frozen allow-list entries with reasons; id()/hash() only as lookup keys; every write to process-global state (draftsman signal table, os.environ, "
+        "module-level mutables) is classified by whether the written value is program-derived, against the decision-reads of the same state; logical configuration values have no position in "
+        "their backward slice and position-derived spanning-tree keys may only add, never replace, a recorded edge colour. Independence from solver time budget/CPU load as such is not decided; "
+        "R4 is the structural reason positions cannot leak into logic.",
+   technique="set-type inference lint + effect analysis on process-global state + def-use layering slices",
+   ref="DESIGN.md §2 C19"),
 }
 NA_DEFAULT = "check not built yet (build phase in progress); see DESIGN.md for the planned rules"
 NA = {}
